@@ -497,9 +497,14 @@ def run_recipe_cond(acc, r, cond, seed, only_rep=None, sample=False, tier='quick
             # the representation must really have been used for the image, with exactly the baseline's numbers
             d, d0 = c.held.get('data'), base.held.get('data')
             if isinstance(d, np.ndarray) and isinstance(d0, np.ndarray):
-                if d.dtype.str != R.DTYPE_OF_REP[dtype_of(rep)] or not np.array_equal(d.astype(float), d0):
-                    raise AssertionError(f'{name}: representation {rep} does not hold the numbers of the baseline '
+                if d.dtype.str != R.DTYPE_OF_REP[dtype_of(rep)]:
+                    raise AssertionError(f'{name}: representation {rep} was not used for the image '
                                          f'({d.dtype.str}, domain {domain})')
+                if not np.array_equal(d.astype(float), d0, equal_nan=True):
+                    # the arrays are inspected after the calls: they were built from the same numbers, so one of the
+                    # calls has written into the caller's image.  That is C10's question, not C15's; the outputs are
+                    # still compared below.
+                    acc.counters['image_changed_by_a_call_(left_to_C10)'] += 1
             if c.uncast:
                 acc.counters['arguments_left_float64_next_to_a_narrow_integer_image'] += len(c.uncast)
         case0 = {'recipe': name, 'rep': rep, 'cond': cond}
